@@ -6,7 +6,7 @@
      F  stv_inv_init / stv_inv_step / stv_loop_inv  the invariant [stv_inv] (Spec/STVSpec.v)
      G,H  partition, count, termination of run_stv
      I  droop_no_overelection                       at most m - e candidates reach a Droop quota *)
-From VK Require Import Base Core STV EditSpec ScoreSpec STVSpec.
+From VK Require Import Base Core STV Rules EditSpec ScoreSpec STVSpec.
 From VK.Proofs Require Import Lib_sets Lib_rk Lib_condense Lib_condense12 C12_edit C03_transfer
   C04_scoring Elect STV_lib STV_wsum STV_tb STV_step STV_round STV_threshold STV_weights.
 From Coq Require Import Permutation Lia Lqa Setoid Morphisms.
@@ -615,6 +615,41 @@ Proof.
   - rewrite count_elected_rev. exact Hcnt.
   - eapply Permutation_NoDup; [apply Permutation_sym, all_elected_rev|].
     apply (hist_elected_nodup p stsf (proj1 Hwf) Hhist).
+Qed.
+
+Theorem run_stv_partition : forall cfg (p : profile) (s s' : mstate) out,
+  wf_stv0 p -> (s_transfer cfg = TRandom -> script_ok s) ->
+  run_stv cfg p s = inl (out, s') ->
+  forall r st, nth_error out r = Some st ->
+    Permutation (flat (elected_upto cand out r) ++ flat (remaining st) ++ flat (eliminated_upto cand out r))
+                (cands p).
+Proof. intros cfg p s s' out Hwf Hscr H. apply (run_stv_outcome cfg p s s' out Hwf Hscr H). Qed.
+
+Theorem run_stv_count : forall cfg (p : profile) (s s' : mstate) out,
+  wf_stv0 p -> (s_transfer cfg = TRandom -> script_ok s) ->
+  run_stv cfg p s = inl (out, s') ->
+  count_elected out = s_m cfg /\ NoDup (all_elected out).
+Proof. intros cfg p s s' out Hwf Hscr H. apply (run_stv_outcome cfg p s s' out Hwf Hscr H). Qed.
+
+(* the cumulative lists are what Election.get_elected / get_eliminated / get_remaining return *)
+Lemma norm_index_nat : forall n r, (r < n)%nat -> norm_index n (Z.of_nat r) = inl r.
+Proof.
+  intros n r H. unfold norm_index.
+  assert (E1 : (Z.of_nat r <? - Z.of_nat n)%Z = false) by (apply Z.ltb_ge; lia).
+  assert (E2 : (Z.of_nat n - 1 <? Z.of_nat r)%Z = false) by (apply Z.ltb_ge; lia).
+  rewrite E1, E2. cbn [orb]. unfold ok. f_equal. rewrite Z.mod_small by lia. apply Nat2Z.id.
+Qed.
+
+Theorem queries_upto : forall (sts : list estate) r, (r < length sts)%nat ->
+  get_elected cand sts (Z.of_nat r) = inl (elected_upto cand sts r) /\
+  get_eliminated cand sts (Z.of_nat r) = inl (eliminated_upto cand sts r) /\
+  exists st, nth_error sts r = Some st /\ get_remaining cand sts (Z.of_nat r) = inl (remaining st).
+Proof.
+  intros sts r H. unfold get_elected, get_eliminated, get_remaining, rbind.
+  rewrite (norm_index_nat _ _ H). split; [reflexivity|]. split; [reflexivity|].
+  destruct (nth_error sts r) as [st|] eqn:E.
+  - exists st. split; reflexivity.
+  - apply nth_error_None in E. lia.
 Qed.
 
 (* ====================== I: a Droop quota cannot be reached by too many ====================== *)
